@@ -50,6 +50,10 @@ def index_units(exclude=()):
     units.append(Unit('ra-index[(2, M) pair array]', {c.key: c for c in (RI.HandleNegative(), RI.ConvertFrom2d(arr2d=True))}, keys=[RI.ConvertFrom2d.key], budget=15))
     units.append(Unit('ra-getitem[lo:hi, cols]', RI.registry_getitem_list((False, False), exclude=exclude), keys=[RI.F + 'RaggedArray.__getitem__'], mutants=MUTG4, budget=20))
     units.append(Unit('ra-getitem[:, cols]', RI.registry_getitem_list((True, True), exclude=exclude), keys=[RI.F + 'RaggedArray.__getitem__'], budget=20))
+    # a[lo:hi, k] / a[:, k]: one integer column (the class hands the one-element list [k] to the same helpers)
+    units.append(Unit('ra-getitem[lo:hi, k]', RI.registry_getitem_list((False, False), exclude=exclude, int_column=True), keys=[RI.F + 'RaggedArray.__getitem__'], budget=20,
+                      mutants=[('integer-column-not-wrapped-per-row', RA, "                    iis, new_lengths = _get_iis_from_list(\n                        first_dimension_iis, [second_dimension])", "                    iis, new_lengths = _get_iis_from_list(\n                        first_dimension_iis, [second_dimension, second_dimension])")]))
+    units.append(Unit('ra-getitem[:, k]', RI.registry_getitem_list((True, True), exclude=exclude, int_column=True), keys=[RI.F + 'RaggedArray.__getitem__'], budget=20))
     for v in itertools.product((False, True), repeat=3):
         name = 'ra-2d-slice[%s]' % ','.join(k for k, isnone in zip(('start', 'stop', 'step'), v) if not isnone)
         units.append(Unit(name, RI.registry_iis(*v, exclude=exclude), mutants=(MUTI if v == (False, False, False) else MUTI_NONE if v == (True, True, True) else ()), budget=15))
